@@ -293,6 +293,7 @@ type e2p struct {
 	Types      []string `json:"types,omitempty"`
 	SyncFaults []string `json:"sync_faults,omitempty"`
 	Foreign    bool     `json:"foreign,omitempty"`
+	Tolerant   bool     `json:"tolerant,omitempty"`
 }
 
 const assumeE2 = "whole system in one testing/synctest bubble per execution: real OrdaService, real server/mongodb over mongo-driver 1.10.1 speaking the wire protocol to the in-memory mongofake, real Notifier over an MQTT stand-in, real SDK clients over an in-process RPC stub (protobuf round trip per message); virtual time; background goroutines drained after every action"
@@ -545,6 +546,172 @@ func init() {
 		} else {
 			p.BudgetS = 3300
 			p.Runs = []Run{{Name: "single-and-pair-faults", Check: "C08", Kind: "dbfault", Cases: true, Params: map[string]interface{}{"pairs": true}, Shards: 16}}
+		}
+		return p
+	}
+}
+
+type e2sched struct {
+	E2      e2p      `json:"e2"`
+	Setup   []pact   `json:"setup,omitempty"`
+	Conc    []pact   `json:"conc"`
+	AtPoint []string `json:"at_point,omitempty"`
+	AtEnd   []string `json:"at_end"`
+	NoClose bool     `json:"no_close,omitempty"`
+}
+
+// pact mirrors pt.Action for plans.
+type pact struct {
+	Op  string `json:"op"`
+	R   int    `json:"r"`
+	P   int    `json:"p,omitempty"`
+	N   int    `json:"n,omitempty"`
+	K   string `json:"k,omitempty"`
+	V   string `json:"v,omitempty"`
+	T   string `json:"t,omitempty"`
+	Sub []pact `json:"sub,omitempty"`
+}
+
+func schedRun(name string, bound int, args e2sched, maxExec int) Run {
+	return Run{Name: name, Check: "SCHED", Kind: "sched", Shards: 16, Depth: bound,
+		Params: map[string]interface{}{"scenario": "e2", "bound": bound, "max_exec": maxExec, "args": args}}
+}
+
+const assumeSched = "stateless schedule search with replay: gates at every application database command (in the issuing goroutine), at the RPC stub, at MQTT publish/delivery; after releasing one gate the bubble runs to quiescence (synctest.Wait); default = continue the activity that ran last; deviations (preemptions, lock-lease expiry) bounded as reported; code between two gates runs atomically with respect to the other parked activities"
+
+func init() {
+	inc := func(r int) pact { return pact{Op: "inc", R: r, P: 1, T: "k1|"} }
+	plans["C12"] = func(tier string) Plan {
+		p := Plan{ID: "C12", Level: "model_checking",
+			Rule: "stateless schedule search over k = 2..3 simultaneous Sync / PatchDocument / ProcessClient calls on the real service: same key, different keys, after completed requests on the same key (cached lock); " +
+				"every gate order up to the deviation bound incl. lock-lease expiry; oracle at the end of every schedule: all calls returned (no hang under virtual time), the worker survived, log invariants, " +
+				"exactly-once storage of every issued operation, clients = server rebuild = C02 reference after the closing syncs (i.e. the outcome is that of a serial order); supplementary free-running -race pass",
+			Assume: []string{assumeE2, assumeSched, assumeInstr}}
+		end := []string{"log", "converge", "applied", "issued", "reference", "snapshots"}
+		same2 := e2sched{E2: e2p{Clients: 2, Type: "counter", Prefix: "joined", Tolerant: true}, Setup: []pact{inc(0), inc(1)}, Conc: []pact{{Op: "sync", R: 0}, {Op: "sync", R: 1}}, AtEnd: end}
+		same3 := e2sched{E2: e2p{Clients: 3, Type: "counter", Prefix: "joined", Tolerant: true}, Setup: []pact{inc(0), inc(1), inc(2)}, Conc: []pact{{Op: "sync", R: 0}, {Op: "sync", R: 1}, {Op: "sync", R: 2}}, AtEnd: end}
+		diff2 := e2sched{E2: e2p{Clients: 2, Type: "counter", Keys: []string{"k1", "k2"}, Prefix: "joined", Exchange: "pack", Tolerant: true}, Setup: []pact{inc(0), {Op: "inc", R: 1, P: 1, T: "k2|"}}, Conc: []pact{{Op: "sync", R: 0}, {Op: "sync", R: 1}}, AtEnd: end}
+		fresh := e2sched{E2: e2p{Clients: 2, Type: "counter", Tolerant: true}, Conc: []pact{{Op: "opensync", R: 0, T: "k1", K: "soc"}, {Op: "opensync", R: 1, T: "k1", K: "soc"}}, AtEnd: append([]string{"onedoc"}, end...)}
+		if tier == "quick" {
+			p.BudgetS = 600
+			p.Runs = []Run{schedRun("same-key-2-b2", 2, same2, 0), schedRun("different-keys-2-b1", 1, diff2, 0), schedRun("fresh-key-2-b2", 2, fresh, 0), schedRun("same-key-3-b1", 1, same3, 0)}
+		} else {
+			p.BudgetS = 3400
+			p.Runs = []Run{schedRun("same-key-2-b3", 3, same2, 0), schedRun("different-keys-2-b2", 2, diff2, 0), schedRun("fresh-key-2-b3", 3, fresh, 0), schedRun("same-key-3-b2", 2, same3, 0)}
+		}
+		return p
+	}
+}
+
+func localOp(typ string, r int) pact {
+	switch typ {
+	case "counter":
+		return pact{Op: "inc", R: r, P: 1, T: "k1|"}
+	case "map":
+		return pact{Op: "put", R: r, K: "a", V: "p", T: "k1|"}
+	case "list":
+		return pact{Op: "ins1", R: r, P: 0, V: "p", T: "k1|"}
+	}
+	return pact{Op: "dput", R: r, K: "a", V: "o", T: "k1|"}
+}
+
+func init() {
+	plans["C11"] = func(tier string) Plan {
+		p := Plan{ID: "C11", Level: "model_checking",
+			Rule: "stateless schedule search: two clients push (one of them twice) on each datatype type; every push spawns the real background activity (notify, then UpdateSnapshot: lock, read latest snapshot, read later " +
+				"operations, insert snapshot, replace user document) whose database commands are scheduling points, so the search places every snapshot update at every position relative to the later pushes and to " +
+				"the other pending updates, up to the deviation bound; oracle at EVERY decision point: each stored snapshot (duid, v) imported into a fresh datatype equals the replay of log[1..v], each user document " +
+				"equals the JSON view of replay(log[1.._orda_ver_]) and its version never decreases; at the end additionally GetLatestDatatype() = replay of the whole log = every client (closing syncs)",
+			Assume: []string{assumeE2, assumeSched, assumeInstr}}
+		mk := func(typ string) e2sched {
+			return e2sched{E2: e2p{Clients: 2, Type: typ, Prefix: "joined", Tolerant: true},
+				Conc: []pact{
+					{Op: "seq", R: 0, Sub: []pact{localOp(typ, 0), {Op: "sync", R: 0}, localOp(typ, 0), {Op: "sync", R: 0}}},
+					{Op: "seq", R: 1, Sub: []pact{localOp(typ, 1), {Op: "sync", R: 1}}},
+				},
+				AtPoint: []string{"snapshots"}, AtEnd: []string{"snapshots", "log", "converge", "reference"}}
+		}
+		if tier == "quick" {
+			p.BudgetS = 600
+			p.Runs = []Run{schedRun("counter-b2", 2, mk("counter"), 0), schedRun("list-b2", 2, mk("list"), 0), schedRun("doc-b1", 1, mk("doc"), 0), schedRun("map-b1", 1, mk("map"), 0)}
+		} else {
+			p.BudgetS = 3400
+			p.Runs = []Run{schedRun("counter-b3", 3, mk("counter"), 0), schedRun("list-b2", 2, mk("list"), 0), schedRun("doc-b2", 2, mk("doc"), 0), schedRun("map-b2", 2, mk("map"), 0)}
+		}
+		return p
+	}
+}
+
+func init() {
+	// racing entries (C13) and realtime convergence (C18b) are added to the sequential plans of those checks
+	c13 := plans["C13"]
+	plans["C13"] = func(tier string) Plan {
+		p := c13(tier)
+		p.Assume = append(p.Assume, assumeSched)
+		end := []string{"onedoc", "log", "converge", "applied", "reference"}
+		race := func(n int, mode string) e2sched {
+			var conc []pact
+			for i := 0; i < n; i++ {
+				conc = append(conc, pact{Op: "opensync", R: i, T: "k1", K: mode})
+			}
+			return e2sched{E2: e2p{Clients: n, Type: "counter", Tolerant: true}, Conc: conc, AtEnd: end}
+		}
+		if tier == "quick" {
+			p.Runs = append(p.Runs, schedRun("race-soc-2-b2", 2, race(2, "soc"), 0), schedRun("race-soc-3-b1", 1, race(3, "soc"), 0), schedRun("race-create-2-b2", 2, race(2, "create"), 0))
+		} else {
+			p.Runs = append(p.Runs, schedRun("race-soc-2-b3", 3, race(2, "soc"), 0), schedRun("race-soc-3-b2", 2, race(3, "soc"), 0), schedRun("race-create-2-b3", 3, race(2, "create"), 0))
+		}
+		return p
+	}
+	c18 := plans["C18"]
+	plans["C18"] = func(tier string) Plan {
+		p := c18(tier)
+		p.Assume = append(p.Assume, assumeSched)
+		rt := func(n int, typ string, two bool) e2sched {
+			var conc []pact
+			for i := 0; i < n; i++ {
+				if two && i == 0 {
+					conc = append(conc, pact{Op: "seq", R: i, Sub: []pact{localOp(typ, i), localOp(typ, i)}})
+				} else {
+					conc = append(conc, localOp(typ, i))
+				}
+			}
+			return e2sched{E2: e2p{Clients: n, Type: typ, Prefix: "joined", SyncType: "realtime", Tolerant: true}, Conc: conc, AtEnd: []string{"quiescent", "log", "converge", "reference"}, NoClose: true}
+		}
+		if tier == "quick" {
+			p.Runs = append(p.Runs, schedRun("realtime-counter-2-b2", 2, rt(2, "counter", false), 0), schedRun("realtime-list-2-b1", 1, rt(2, "list", true), 0))
+		} else {
+			p.Runs = append(p.Runs, schedRun("realtime-counter-2-b3", 3, rt(2, "counter", true), 0), schedRun("realtime-list-2-b2", 2, rt(2, "list", true), 0), schedRun("realtime-counter-3-b2", 2, rt(3, "counter", false), 0))
+		}
+		return p
+	}
+}
+
+func init() {
+	plans["C20"] = func(tier string) Plan {
+		p := Plan{ID: "C20", Level: "model_checking",
+			Rule: "stateless schedule search over 2-3 caller goroutines (a plain call, a Transaction of two calls with reads, two plain calls) on ONE real client datatype (counter, list), plus a goroutine applying a remote " +
+				"pack and one calling CreatePushPullPack; scheduling points = the four shim gates around the datatype mutex (before/after Lock and Unlock) and goroutine starts; all schedules up to the deviation bound; " +
+				"oracle: no panic, no deadlock (no progress under virtual time), no lost update, every issued operation queued exactly once in sequence order with increasing lamport, the transaction unit contiguous, " +
+				"reads inside the body see only its own effects; supplementary free-running -race pass",
+			Assume: []string{assumeE1, assumeSched, assumeInstr, "preemption between two plain field accesses without an intervening synchronization operation is not enumerated"}}
+		mk := func(name string, bound int, a map[string]interface{}) Run {
+			return Run{Name: name, Check: "SCHED", Kind: "sched", Shards: 16, Depth: bound, Params: map[string]interface{}{"scenario": "c20", "bound": bound, "args": a}}
+		}
+		if tier == "quick" {
+			p.BudgetS = 600
+			p.Runs = []Run{
+				mk("counter-2t-b3", 3, map[string]interface{}{"type": "counter", "threads": 2}),
+				mk("counter-3t-remote-pack-b2", 2, map[string]interface{}{"type": "counter", "threads": 3, "remote": true, "packer": true}),
+				mk("list-2t-remote-b2", 2, map[string]interface{}{"type": "list", "threads": 2, "remote": true}),
+			}
+		} else {
+			p.BudgetS = 3400
+			p.Runs = []Run{
+				mk("counter-2t-b5", 5, map[string]interface{}{"type": "counter", "threads": 2}),
+				mk("counter-3t-remote-pack-b3", 3, map[string]interface{}{"type": "counter", "threads": 3, "remote": true, "packer": true}),
+				mk("list-3t-remote-pack-b3", 3, map[string]interface{}{"type": "list", "threads": 3, "remote": true, "packer": true}),
+			}
 		}
 		return p
 	}
